@@ -52,6 +52,14 @@ def surf_sets(tier):
         [dict(pf="rect", nx=2, ny=3, side="fullsym", off=[-4.0, 0.0, 0.3], span=3.0, chord=0.8), dict(pf="twdi", nx=3, ny=3, side="right", off=None)],
     ]
     out += two
+    # symmetric surfaces of DIFFERENT handedness in one list (wing modelled by its left half, tail by its right half, and the
+    # reverse; three surfaces left / right / full): the handedness is a property of each surface, not of the model
+    out += [
+        [dict(pf="swept", nx=3, ny=3, side="left", off=None), dict(pf="rect", nx=2, ny=3, side="right", off=[5.0, 0.0, 0.7], span=3.0, chord=0.8)],
+        [dict(pf="twdi", nx=3, ny=3, side="right", off=None), dict(pf="rect", nx=2, ny=2, side="left", off=[5.0, 0.0, 0.7], span=3.0, chord=0.8)],
+        [dict(pf="twdi", nx=2, ny=3, side="left", off=None), dict(pf="swept", nx=3, ny=3, side="right", off=[5.0, 0.0, 0.7], span=3.0, chord=0.8), dict(pf="rect", nx=2, ny=3, side="fullsym", off=[-4.0, 0.0, 0.3], span=3.0, chord=0.8)],
+        [dict(pf="twdi", nx=2, ny=3, side="right", off=None), dict(pf="rect", nx=2, ny=3, side="fullsym", off=[-4.0, 0.0, 0.3], span=3.0, chord=0.8), dict(pf="swept", nx=3, ny=3, side="left", off=[5.0, 0.0, 0.7], span=3.0, chord=0.8)],
+    ]
     # two and three surfaces of IDENTICAL mesh shape (anything keyed on the shape would be shared between them)
     out += [
         [dict(pf="swept", nx=3, ny=3, side="left", off=None), dict(pf="twdi", nx=3, ny=3, side="left", off=[5.0, 0.0, 0.7], span=3.0, chord=0.8)],
